@@ -39,6 +39,10 @@ WRITERS = ("fchk", "molden", "molekel", "wfn", "wfx")
 COEFF_ATTRS = ("coeffs", "coeffsa", "coeffsb")
 EXPLANATION += ' Added: (R10) a real-valued electron count, charge or multiplicity reaches an integer field of a wavefunction file only through rounding (never int() truncation or a float in a d field); (R11) convert_to_segmented, evaluated on abstract SP / PS / PD / generally contracted shells, keeps every contraction in its place (the coefficient rows are not re-ordered by the writers). R9 now takes every use of the orbital coefficients in a writer as an instance and follows local names over two-step applications.'
 TECHNIQUE += '; count-field dataflow rule; accessor evaluation of the segmentation'
+# --- metadata added for batch 7
+TECHNIQUE += '; writer-fragment / reader-routine evaluation on model output and input streams (Molekel, Molden, WFN, WFX orbital sections)'
+EXPLANATION += " Added after the clause-coverage audit: (R12) Molekel `$$` separators put each shell on its atom; (R13) WFX spin-type labels written for a set of orbitals are read back as the same kind and counts; (R14-R16) the [MO] / $COEFF / MOLECULAR ORBITAL sections of Molekel, Molden and WFN: the writer fragment is interpreted on a model object into a model output file and the reader routine on the resulting lines -- irreps, energies, occupations and coefficient columns of restricted and unrestricted sets come back in their own slots, and (Molden) a section header that follows the orbitals, directly or after an empty line, is still there for the section loop. R1's shape judgement was dropped: R9 (every use of the orbital coefficients evaluated on symbols) decides."
+# --- end metadata batch 7
 
 
 def module_closure(prog, root):
